@@ -9,12 +9,15 @@ Inductive impl_out := IOk (o : observation) | ICrash.
    random surface syntax and ran the real shell on the text), whether POSIX
    defines its behaviour (the harness's claim, re-checked here), and the
    implementation's output *)
-Definition case := (prog * impl_out)%type.
+(* [unordered]: the script has asynchronous lists, whose probes are not ordered
+   relative to the parent's: traces are compared as multisets *)
+Definition case := (prog * bool * impl_out)%type.
 
 Definition fuel : nat := 3000.
 
 Definition run_case (c : case) : verdict :=
-  let '(p, out) := c in
+  let '(p, unordered, out) := c in
+  let eqb := if unordered then observation_eqb_unordered else observation_eqb in
   match out with
   | ICrash => 3%N
   | IOk o =>
@@ -22,14 +25,14 @@ Definition run_case (c : case) : verdict :=
       let oracle :=
         if wf_prog p then
           match spec_run fuel p with
-          | Some e => if observation_eqb e o then 0%N else 2%N
+          | Some e => if eqb e o then 0%N else 2%N
           | None => 99%N
           end
         else 0%N in
       match oracle with
       | 0%N =>
           match model_run fuel p with
-          | Some m => if observation_eqb m o then 0%N else 1%N
+          | Some m => if eqb m o then 0%N else 1%N
           | None => 99%N
           end
       | v => v
